@@ -73,7 +73,12 @@ func exprList(r *Rng, n int) string {
 
 func genC14Stmt(r *Rng, reading bool) c14Stmt {
 	for {
-		switch k := r.Intn(33); {
+		switch k := r.Intn(35); {
+		case k == 33:
+			// flags set from variables, literals, cells and expressions: the values are only read
+			return c14Stmt{Src: "SET @@LIMIT_RECURSION TO @n; SET @@WAIT_TIMEOUT TO @f; SET @@TIMEZONE TO 'UTC'; SET @@JSON_QUERY TO (SELECT s FROM a WHERE id = 1); PRINT @n + 1; PRINT @f * 2; PRINT @x || 'z'; SET @@JSON_QUERY TO ''; SHOW @@LIMIT_RECURSION;", Repeat: 2, Reads: true}
+		case k == 34:
+			return c14Stmt{Src: "VAR @w := 0; WHILE @w < 3 DO SET @@LIMIT_RECURSION TO 7; PRINT 20 + 22 + @w; ADD '%d.%m.%Y' TO @@DATETIME_FORMAT; PRINT 'fmt' || STRING(@w); REMOVE '%d.%m.%Y' FROM @@DATETIME_FORMAT; @w := @w + 1; END WHILE; DISPOSE @w; SET @@WAIT_TIMEOUT TO @n + 3;", Repeat: 2, Reads: true}
 		case k == 30:
 			// reading statements that fail in one of their clauses: what they had set up (scopes, inline tables, aliases) must be gone afterwards
 			return c14Stmt{Src: r.PickS("SELECT id FROM a x ORDER BY id LIMIT 1 OFFSET 'abc';", "SELECT id FROM a LIMIT 'x';", "WITH w AS (SELECT id FROM a) SELECT w.id FROM w ORDER BY id OFFSET @u + 'q';",
